@@ -2,6 +2,7 @@ package main
 
 import (
 	"bytes"
+	"encoding/binary"
 	"encoding/json"
 	"fmt"
 	"os"
@@ -300,7 +301,8 @@ func c14child(e *env) {
 				Nontrivial: nconn >= 2 && len(cr.steps) > 3, Tags: caseTags(cr.c)})
 		}
 	}
-	w.Res.Rule = "rounds of 2..64 real connections (full stack: parser, server loop, orchestrator, std handlers or - every third round - the batching pools of handlers/memcached/batched for both tiers, shared fake backends; every fourth round the chunked handler is the per-connection L1 handler (real clock); requests arrive split in two pieces; every third round the connections pass through rend's accept loop and are all accepted before the first byte of any) started together, each running a random command sequence on its own private keys; every connection's replies are compared with the sequential model of that connection alone; in the thorough tier the binary is built with -race and every race report naming repository code is a finding"
+	c14HitStorm(w, e)
+	w.Res.Rule = "rounds of 2..64 real connections (full stack: parser, server loop, orchestrator, std handlers or - every third round - the batching pools of handlers/memcached/batched for both tiers, shared fake backends; every fourth round the chunked handler is the per-connection L1 handler (real clock); requests arrive split in two pieces; every third round the connections pass through rend's accept loop and are all accepted before the first byte of any) started together, each running a random command sequence on its own private keys; every connection's replies are compared with the sequential model of that connection alone; in the thorough tier the binary is built with -race and every race report naming repository code is a finding; then a hit storm: 8 connections (one-tier deployment, binary, plain and locked) each reading its own key with get, gete and gat 1200 times at once - every reply must carry that key's own flags, expiry and data (Go-side oracle on the reply bytes)"
 	if err := w.Finish([]string{"base.Bytes", "base.Harness", "spec.MapSpec", "orca.Types", "proto.Resp", "checks.Check01"}, "case01", "check01 14"); err != nil {
 		rig.Die("%v", err)
 	}
@@ -318,4 +320,95 @@ func genCaseKeys(r *rig.Rand, deploy string, locked bool, proto string, n int, w
 		c.Steps[i].Evict = nil
 	}
 	return c
+}
+
+// c14HitStorm: many connections receive hit replies at the same instant, each for its own key
+// with its own flags / expiry / data. Whatever the responders, handlers and orchestrators share
+// (scratch buffers, pools) must not leak one connection's reply fields into another's: every
+// reply is compared byte for byte with the first reply that connection got for that request and
+// its flags with the flags that were stored.
+func c14HitStorm(w *rig.Writer, e *env) {
+	iters := 1200
+	if raceEnabled {
+		iters = 300
+	}
+	if e.tier == "thorough" {
+		iters *= 4
+	}
+	for _, locked := range []bool{false, true} {
+		b := stack.NewBackends()
+		b.L1.LogOn, b.L2.LogOn = false, false
+		b.L1.SetNow(t0)
+		b.L2.SetNow(t0)
+		const nconn = 8
+		var wg sync.WaitGroup
+		var mu sync.Mutex
+		var fail *rig.GoFailure
+		start := make(chan struct{})
+		for i := 0; i < nconn; i++ {
+			wg.Add(1)
+			go func(i int) {
+				defer wg.Done()
+				cn := stack.Dial(b, stack.Config{Orca: "l1only", Locked: locked, MultiRd: true, L1: "std", Proto: "bin"})
+				defer cn.Close()
+				key := []byte(fmt.Sprintf("storm-%d", i))
+				flags := uint32(i+1) * 0x01010101
+				ttl := uint32(1000 * (i + 1))
+				data := bytes.Repeat([]byte{byte('A' + i)}, 3+i)
+				set := stack.Req{Kind: "set", Key: key, Data: data, Flags: flags, TTL: ttl, Opaque: uint32(i)}
+				if _, closed, err := cn.Exchange(set.EncodeBin(), 20*time.Second); err != nil || closed {
+					return
+				}
+				reqs := []stack.Req{
+					{Kind: "gete", Items: []stack.GItem{{Key: key, Opaque: uint32(100 + i)}}},
+					{Kind: "get", Items: []stack.GItem{{Key: key, Opaque: uint32(200 + i)}}},
+					{Kind: "gat", Key: key, TTL: ttl, Opaque: uint32(300 + i)},
+				}
+				first := make([][]byte, len(reqs))
+				<-start
+				for n := 0; n < iters; n++ {
+					for ri, q := range reqs {
+						rep, closed, err := cn.Exchange(q.EncodeBin(), 20*time.Second)
+						if err != nil || closed {
+							mu.Lock()
+							if fail == nil {
+								fail = &rig.GoFailure{Kind: "counterexample", What: "a connection reading its own key got no reply (or was closed) while other connections were reading theirs",
+									Input: map[string]interface{}{"cmd": "c14par", "part": "hit-storm", "locked": locked, "request": q.Kind}}
+							}
+							mu.Unlock()
+							return
+						}
+						bad := ""
+						if len(rep) < 28 || rep[0] != 0x81 || rep[6] != 0 || rep[7] != 0 {
+							bad = "not a hit reply"
+						} else if got := binary.BigEndian.Uint32(rep[24:28]); got != flags {
+							bad = fmt.Sprintf("flags %#x instead of the stored %#x", got, flags)
+						} else if !bytes.HasSuffix(rep, data) {
+							bad = "data differs from the stored value"
+						} else if first[ri] == nil {
+							first[ri] = rep
+						} else if !bytes.Equal(first[ri], rep) {
+							bad = "reply differs from the first reply to the same request on this connection"
+						}
+						if bad != "" {
+							mu.Lock()
+							if fail == nil {
+								fail = &rig.GoFailure{Kind: "counterexample", What: "a hit reply carried fields that are not those of the connection's own key while other connections were being answered: " + bad,
+									Input:  map[string]interface{}{"cmd": "c14par", "part": "hit-storm", "locked": locked, "request": q.Kind, "connection": i, "iteration": n},
+									Detail: fmt.Sprintf("reply % x; first reply % x", rep, first[ri])}
+							}
+							mu.Unlock()
+							return
+						}
+					}
+				}
+			}(i)
+		}
+		close(start)
+		wg.Wait()
+		if fail != nil {
+			w.Fail(*fail)
+		}
+		w.Count("hit-storm-rounds")
+	}
 }
